@@ -116,6 +116,35 @@ Theorem C09_accepted_keys_distinct : forall ep be pat ks, init ep be = Accepted 
 Proof. exact accepted_keys_distinct. Qed.
 Print Assumptions C09_accepted_keys_distinct.
 
+(* the ambiguity check does not depend on where the two colliding parameters stand, nor on
+   what stands between them: it is a property of the SET of declared parameters *)
+Theorem C09_ambiguous_iff : forall l, ambiguous l = true <->
+  exists p q, In p l /\ In q l /\ p <> q /\ config_cap p = config_cap q.
+Proof. exact ambiguous_iff. Qed.
+Print Assumptions C09_ambiguous_iff.
+
+(* Init = validity of the endpoint text, then a decision that depends on the declared
+   parameters only up to permutation (acceptance, error and rewritten pattern alike) *)
+Theorem C09_init_factors : forall ep be,
+  init ep be = if invalid_endpoint (clean_path ep) then Rejected RInvalidEndpoint
+               else init_params (endpoint_params (clean_path ep)) be.
+Proof. exact init_factors. Qed.
+Print Assumptions C09_init_factors.
+
+Theorem C09_declared_order_irrelevant : forall ins ins' be,
+  Permutation ins ins' -> init_params ins be = init_params ins' be.
+Proof. exact init_params_perm. Qed.
+Print Assumptions C09_declared_order_irrelevant.
+
+(* an endpoint with two parameters that differ only in the case of the first character is never
+   served, under any adapter, wherever the two stand and whatever other parameters it has *)
+Theorem C09_ambiguous_never_served : forall a segs be vals p q,
+  forallb seg_ok segs = true ->
+  In p (ph_names segs) -> In q (ph_names segs) -> p <> q -> config_cap p = config_cap q ->
+  serve a segs be vals = ORejected.
+Proof. exact ambiguous_never_served. Qed.
+Print Assumptions C09_ambiguous_never_served.
+
 (* oracle <-> model, oracle -> Prop *)
 Theorem C09_model_meets_oracle : forall a segs be vals,
   wf_route segs be vals = true -> spec_route_b segs be vals (serve a segs be vals) = true.
@@ -161,3 +190,9 @@ Example C09_ex_config_other_endpoints_param :
   init_config [("/b/{order}", "/o/{id}"); ("/a/{id}", "/o/{id}")] = false /\
   init_config [("/a/{id}", "/o/{id}"); ("/b/{order}", "/o/{order}")] = true.
 Proof. vm_compute. auto. Qed.
+Example C09_ex_pair_with_middle :
+  serve Gin [Lit "x"; Ph "id"; Ph "cat"; Ph "Id"] [Lit "/b/"; Ph "id"; Lit "/"; Ph "cat"; Lit "/"; Ph "Id"] ["1"; "tom"; "2"] = ORejected.
+Proof. vm_compute. reflexivity. Qed.
+Example C09_ex_long_name :
+  serve Chi [Ph "nameWith-Long_tail0123456789nameW"] [Lit "/b/"; Ph "nameWith-Long_tail0123456789nameW"] ["v"] = OPath "/b/v".
+Proof. vm_compute. reflexivity. Qed.
